@@ -99,8 +99,14 @@ func (s *Server) Stop() error {
 	for _, c := range s.conns {
 		c.EOF()
 	}
+	if s.AnyWedged() {
+		return nil // (Close waits for the commands in flight: with a wedged one it would never return)
+	}
 	for _, c := range s.conns {
 		c.AwaitClose()
+	}
+	if s.AnyWedged() {
+		return nil
 	}
 	s.Srv.Close()
 	return <-s.serveErr
